@@ -976,7 +976,7 @@ def r_source(prog, run):
             if not g.cname(n).endswith('::sendPacket') and not g.cname(n).endswith('::send'):
                 continue
             for a in n.get('args', []):
-                an = g.nodes[g.skip(a)]
+                an = g.nodes[g.resolve(a)]          # also through a reference local bound to the member
                 if an['k'] == 'mem' and an.get('f') == cp:
                     sites.append((g, i))
     # a function that stores a new client presence must put that stored presence (whose hash was just recomputed) on the wire, not another presence object
